@@ -222,6 +222,66 @@ theorem toDisp_generated_spec (x : Input) (cv : Nat) (c0 : Store (List Fl)) (m0 
   rw [(toDisp_generated x cv c0 m0 hcv).2.1]
   exact C03.source_blocks_spec x lo hi hwf r c hr hc
 
+/-! ### the returned dataset: carried fields as arrays of their own stores -/
+
+/-- the cost volume and the map of `toDispDataset` are those of `toDisp` (the same statements) -/
+theorem toDispDataset_core (isMax hasConf : Bool) (ny nx nd : Nat) (disps : List Rat) (invalid : Val)
+    (cv conf mask : Nat) (c0 : Store (List Fl)) (m0 : Store Val) (b0 : Store (List Val)) (f0 : Store Nat) :
+    (Generated.KernelsWta.toDispDataset isMax hasConf ny nx nd disps invalid cv conf mask c0 m0 b0 f0).cvs
+        = (Generated.KernelsWta.toDisp isMax ny nx nd disps invalid cv c0 m0).1
+    ∧ (Generated.KernelsWta.toDispDataset isMax hasConf ny nx nd disps invalid cv conf mask c0 m0 b0 f0).maps
+        = (Generated.KernelsWta.toDisp isMax ny nx nd disps invalid cv c0 m0).2.1
+    ∧ (Generated.KernelsWta.toDispDataset isMax hasConf ny nx nd disps invalid cv conf mask c0 m0 b0 f0).disparity_map
+        = (Generated.KernelsWta.toDisp isMax ny nx nd disps invalid cv c0 m0).2.2 :=
+  ⟨rfl, rfl, rfl⟩
+
+/-- **Frame of `to_disp`** (`cv_unchanged`, `bands_carried`, `flags_carried`): after the call every cost volume holds
+    what it held; the confidence bands are handed over as the SAME array and no band array is written; the flags of the
+    result are a FRESH array holding the cost volume's flags, and no flag array that existed is written. -/
+theorem toDispDataset_frame (isMax hasConf : Bool) (ny nx nd : Nat) (disps : List Rat) (invalid : Val)
+    (cv conf mask : Nat) (c0 : Store (List Fl)) (m0 : Store Val) (b0 : Store (List Val)) (f0 : Store Nat) :
+    (Generated.KernelsWta.toDispDataset isMax hasConf ny nx nd disps invalid cv conf mask c0 m0 b0 f0).cvs.arr = c0.arr
+    ∧ (Generated.KernelsWta.toDispDataset isMax hasConf ny nx nd disps invalid cv conf mask c0 m0 b0 f0).bands = b0
+    ∧ (Generated.KernelsWta.toDispDataset isMax hasConf ny nx nd disps invalid cv conf mask c0 m0 b0 f0).confidence_measure
+        = (if hasConf then some conf else none)
+    ∧ (Generated.KernelsWta.toDispDataset isMax hasConf ny nx nd disps invalid cv conf mask c0 m0 b0 f0).validity_mask
+        = f0.next
+    ∧ (Generated.KernelsWta.toDispDataset isMax hasConf ny nx nd disps invalid cv conf mask c0 m0 b0 f0).flags.arr f0.next
+        = f0.arr mask
+    ∧ ∀ k, k ≠ f0.next →
+        (Generated.KernelsWta.toDispDataset isMax hasConf ny nx nd disps invalid cv conf mask c0 m0 b0 f0).flags.arr k
+          = f0.arr k := by
+  refine ⟨?_, rfl, rfl, rfl, ?_, ?_⟩
+  · rw [(toDispDataset_core isMax hasConf ny nx nd disps invalid cv conf mask c0 m0 b0 f0).1]
+    exact toDisp_generated_cv isMax ny nx nd disps invalid cv c0 m0
+  · unfold Generated.KernelsWta.toDispDataset
+    simp
+  · intro k hk
+    unfold Generated.KernelsWta.toDispDataset
+    simp [hk]
+
+/-- **No write through the result reaches the cost-volume dataset.**  Whatever is later stored into the returned
+    validity mask (the validation and filter steps write flags there), the cost volume's flags keep their content;
+    whatever is later stored into the returned disparity map, `cv["disp_indices"]` keeps the map it saved. -/
+theorem toDispDataset_private (isMax hasConf : Bool) (ny nx nd : Nat) (disps : List Rat) (invalid : Val)
+    (cv conf mask : Nat) (c0 : Store (List Fl)) (m0 : Store Val) (b0 : Store (List Val)) (f0 : Store Nat)
+    (hmask : mask < f0.next) (g : Arr Nat) (gm : Arr Val) :
+    ((Generated.KernelsWta.toDispDataset isMax hasConf ny nx nd disps invalid cv conf mask c0 m0 b0 f0).flags.set
+        (Generated.KernelsWta.toDispDataset isMax hasConf ny nx nd disps invalid cv conf mask c0 m0 b0 f0).validity_mask g).arr mask
+      = f0.arr mask
+    ∧ ((Generated.KernelsWta.toDispDataset isMax hasConf ny nx nd disps invalid cv conf mask c0 m0 b0 f0).maps.set
+        (Generated.KernelsWta.toDispDataset isMax hasConf ny nx nd disps invalid cv conf mask c0 m0 b0 f0).disparity_map gm).arr
+          (Generated.KernelsWta.toDispDataset isMax hasConf ny nx nd disps invalid cv conf mask c0 m0 b0 f0).disp_indices
+      = (Generated.KernelsWta.toDispDataset isMax hasConf ny nx nd disps invalid cv conf mask c0 m0 b0 f0).maps.arr
+          (Generated.KernelsWta.toDispDataset isMax hasConf ny nx nd disps invalid cv conf mask c0 m0 b0 f0).disp_indices := by
+  obtain ⟨_, _, _, hv, _, hold⟩ := toDispDataset_frame isMax hasConf ny nx nd disps invalid cv conf mask c0 m0 b0 f0
+  constructor
+  · rw [hv, set_arr_ne _ (by omega : mask ≠ f0.next), hold mask (by omega)]
+  · apply set_arr_ne
+    unfold Generated.KernelsWta.toDispDataset
+    cases isMax <;>
+      simp [argminSplit_eq, argmaxSplit_eq, Store.copy, Store.alloc, Store.maskFill, Store.set]
+
 /-- how the fields the model does not hold are handed to the result, as read in the source on this run: the validity
     mask is a DEEP copy (later steps write flags into the disparity dataset's mask; the cost volume's must not follow),
     the confidence bands are the cost volume's own -/
